@@ -190,12 +190,12 @@ class uamiv(PseudoNetCDFFile):
         start_date, start_time, end_date, end_time = self.rffile.read(
             self.time_hdr_fmt)
 
+        # uamiv times are hours of the day (0-24), as in seek and timerange
         self.time_step = timediff(
-            (start_date, start_time), (end_date, end_time))
-        mystep = (2400, 24)[int(self.time_step % 2)]
+            (start_date, start_time), (end_date, end_time), 24)
         self.time_step_count = int(timediff((self.start_date, self.start_time),
                                             (self.end_date, self.end_time),
-                                            mystep) // self.time_step)
+                                            24) // self.time_step)
         if self.name == 'AIRQUALITY':
             self.time_step_count = 1
             self.start_date = self.end_date
@@ -219,7 +219,7 @@ class uamiv(PseudoNetCDFFile):
         """
         d, t = dt
         nsteps = int(
-            timediff((self.start_date, self.start_time), (d, t)) /
+            timediff((self.start_date, self.start_time), (d, t), 24) /
             self.time_step)
         nspec = self.__spcrecords(self.nspec + 1)
         return nsteps * nspec
